@@ -65,6 +65,11 @@ type c12Exec struct {
 	// snap: call records carry a snapshot of the receiver state written so far
 	snap bool
 
+	// globals != nil: a start-up table is being built (c12_init.go): package-level variables are read from and
+	// written to this map, make(map) yields a mutable map
+	globals  map[types.Object]c12Val
+	initInfo *c12InitInfo
+
 	path  *c12Path
 	store map[string]c12Val
 	init  map[string]c12Val
@@ -240,6 +245,15 @@ func (ex *c12Exec) zero(t types.Type) c12Val {
 		return &c12Struct{Typ: t, Fields: map[string]c12Val{}}
 	case *types.Slice, *types.Pointer, *types.Map, *types.Interface, *types.Chan, *types.Signature:
 		return c12Nil{}
+	case *types.Array:
+		// an array is the list of its elements (fixed length)
+		if u.Len() <= 1024 {
+			out := c12Slice{Elems: make([]c12Val, u.Len())}
+			for i := range out.Elems {
+				out.Elems[i] = ex.zero(u.Elem())
+			}
+			return out
+		}
 	}
 	return c12Sym{Hole: -1, Desc: "zero " + t.String()}
 }
@@ -927,7 +941,11 @@ func (ex *c12Exec) assignStmt(fr *c12Frame, st *ast.AssignStmt) {
 	}
 	if ix, isIx := unparen(st.Rhs[0]).(*ast.IndexExpr); isIx && len(st.Rhs) == 1 && len(st.Lhs) == 2 {
 		// v, ok := m[k] on a read-only table with known keys
-		if m, isMap := ex.rv(ex.expr(fr, ix.X)).(c12Map); isMap {
+		mv := ex.rv(ex.expr(fr, ix.X))
+		if mm, isMut := mv.(*c12MutMap); isMut && !mm.Poisoned {
+			mv = mm.frozen()
+		}
+		if m, isMap := mv.(c12Map); isMap {
 			if val, found, known := ex.mapLookup(fr, m, ex.rv(ex.expr(fr, ix.Index)), nil); known {
 				ex.bind(fr, st.Lhs[0], val, define, st)
 				ex.bind(fr, st.Lhs[1], c12Bool{found}, define, st)
@@ -972,6 +990,13 @@ func (ex *c12Exec) assign(fr *c12Frame, lhs ast.Expr, op token.Token, v c12Val, 
 			return
 		}
 		o := fr.info.ObjectOf(id)
+		if ex.globals != nil && c12IsPkgLevel(o) {
+			if op != token.ASSIGN && op != token.DEFINE {
+				v = ex.arith(c12BinOf(op), ex.rv(ex.expr(fr, id)), v)
+			}
+			ex.globals[o] = c12Thaw(v)
+			return
+		}
 		if op != token.ASSIGN && op != token.DEFINE {
 			v = ex.arith(c12BinOf(op), ex.rv(fr.env[o]), v)
 		}
@@ -999,7 +1024,8 @@ func (ex *c12Exec) assign(fr *c12Frame, lhs ast.Expr, op token.Token, v c12Val, 
 		base := ex.rv(ex.expr(fr, l.X))
 		if s, ok := base.(*c12Struct); ok {
 			if op != token.ASSIGN {
-				v = ex.arith(c12BinOf(op), ex.rv(s.Fields[l.Sel.Name]), v)
+				// the current value; a field the literal did not mention holds its zero value
+				v = ex.arith(c12BinOf(op), ex.rv(ex.fieldOf(fr, s, l)), v)
 			}
 			ex.setField(fr, s, l, v)
 			return
@@ -1008,9 +1034,26 @@ func (ex *c12Exec) assign(fr *c12Frame, lhs ast.Expr, op token.Token, v c12Val, 
 	case *ast.IndexExpr:
 		base := ex.rv(ex.expr(fr, l.X))
 		idx := ex.rv(ex.expr(fr, l.Index))
+		if m, ok := base.(*c12MutMap); ok {
+			if op != token.ASSIGN {
+				cur, _, known := ex.mapLookup(fr, m.frozen(), idx, nil)
+				if !known || m.Poisoned {
+					m.Poisoned = true
+					return
+				}
+				v = ex.arith(c12BinOf(op), ex.rv(cur), v)
+			}
+			m.store(idx, c12Clone(v))
+			return
+		}
 		if s, ok := base.(c12Slice); ok {
 			if i, ok := idx.(c12Int); ok && i.V >= 0 && int(i.V) < len(s.Elems) {
-				s.Elems[i.V] = v
+				if op != token.ASSIGN && op != token.DEFINE {
+					v = ex.arith(c12BinOf(op), ex.rv(s.Elems[i.V]), v)
+				}
+				s.Elems[i.V] = c12Clone(v)
+			} else if ex.globals != nil {
+				ex.unsupported(fr, at, "store at an unknown or out-of-range index while a start-up table is built")
 			}
 		}
 		return
